@@ -18,10 +18,10 @@ SPEC = {
     'closure_dirs': ['theories/C02', 'theories/C14/Corr.v'] + [w for w in WIRE if os.path.exists(os.path.join(vlib.COQ, w))],
     'harness': 'c02',
     'args': {
-        'quick': ['-docs', 2, '-heads', 1, '-rand', 1500, '-prefix', 3, '-model', 1500, '-long', 1, '-big', 1, '-symbols', 1],
-        'thorough': ['-docs', 12, '-heads', 3, '-rand', 20000, '-prefix', 12, '-model', 12000, '-long', 4, '-big', 4, '-symbols', 3],
+        'quick': ['-docs', 2, '-heads', 1, '-rand', 1500, '-prefix', 3, '-model', 1500, '-long', 1, '-big', 1, '-symbols', 1, '-chunks', 1, '-tagrun', 1],
+        'thorough': ['-docs', 12, '-heads', 3, '-rand', 20000, '-prefix', 12, '-model', 12000, '-long', 4, '-big', 4, '-symbols', 3, '-chunks', 2, '-tagrun', 1],
     },
-    'search_args': ['-docs', 6, '-heads', 2, '-rand', 6000, '-prefix', 6, '-model', 3000, '-long', 2, '-big', 2, '-symbols', 2],
+    'search_args': ['-docs', 6, '-heads', 2, '-rand', 6000, '-prefix', 6, '-model', 3000, '-long', 2, '-big', 2, '-symbols', 2, '-chunks', 1, '-tagrun', 1],
     'known_aliases': ['Wcbor', 'Wmsgpack', 'Wsimple', 'Wbinc', 'Wjson'],
     'eval_timeout': {'quick': 600, 'thorough': 2400},
     'assumptions': [
@@ -29,7 +29,7 @@ SPEC = {
         'the 64 MB in K0 is usableByteSlice: an array head claiming n elements decoded as bytes (into []byte or string destinations, map keys, struct field names) allocates min(n, 64 MB) before the first element is read; every other claimed length is capped by decInferLen at max(1024, MaxInitLen) elements',
         'workers run with RLIMIT_AS = 6 GB and debug.SetMaxStack(64 MB); a fatal exit or a stall beyond 20 s + 0.2 ms per input byte is attributed to the input being decoded',
         'the wire models cover Decode(&interface{}) and Decode(&Raw) from []byte for cbor, msgpack, simple, binc (outcome class + NumBytesRead compared as Coq cases); typed destinations, io.Reader transports, the other option flags and json are covered by the oracle only',
-        'cbor inputs holding a tag 4 / 5 head (decimal fraction, bigfloat: not modelled by Wire/Cbor.v) are not written as model cases', 'msgpack model cases run with MapValueReset=true (the wire model assumption); repeated map keys are outside the cbor/simple/binc models and not compared',
+        'msgpack model cases run with MapValueReset=true (the wire model assumption); repeated map keys are outside the cbor/simple/binc models and not compared',
     ],
     'trusted_extra': ['modelled, not verified: the four wire models; decInferLen / usableByteSlice / maxInitLen as transcribed by hand in C02/Alloc.v (the translator does not handle the local const block of decInferLen) and tied by the leaf stream through the hook VerifC02DecInferLen / VerifC02UsableByteSliceLen; GC, real memory, wall time and the recover at the Decode boundary are runtime'],
     'harness_timeout': {'quick': 1500, 'thorough': 5400},
